@@ -58,6 +58,15 @@ class UpdaterModel:
         f['ref_time'] = Struct([ref])
         # the leap status of the report, should the updater look at it itself: any value consistent with the class (a class-1 report
         # has leap <= 2; leap > 3 is class 0; leap 3 is never class 1)
+        # its other float fields (skew, frequency, offsets ...): arbitrary reals, should the updater look at them itself
+        from mirsym.values import FLin as _FLin
+        self.last_floats = {}
+        for fld in ('current_correction', 'last_offset', 'rms_offset', 'freq_ppm', 'resid_freq_ppm', 'skew_ppm', 'root_delay', 'root_dispersion', 'last_update_interval'):
+            if fld in f:
+                v_ = z3.Real('trk%d_%s' % (self.n, fld))
+                self.ex.side.append(z3.And(v_ >= -2 ** 20, v_ <= 2 ** 20))
+                f[fld] = _FLin(v_)
+                self.last_floats[fld] = v_
         leap = z3.Int('ext_leap_%d' % self.n)
         self.ex.side.append(z3.And(leap >= 0, leap < 65536, z3.Implies(c == 1, leap <= 2), z3.Implies(leap > 3, c == 0), z3.Implies(leap == 3, c != 1)))
         f['leap_status'] = leap
@@ -166,7 +175,7 @@ def run_history(um, H, drift):
                     um.dom_vars.append(phc); um.asof_vars += [as_s, as_n]
                     trk, ext, ref = um.new_report()
                     outs = um.step_report(s2, phc, Struct([as_s, as_n]), trk)
-                    info = dict(kind=0, phc=phc, as_s=as_s, as_n=as_n, ext=ext, ref=ref, leap=getattr(um, 'last_leap', None))
+                    info = dict(kind=0, phc=phc, as_s=as_s, as_n=as_n, ext=ext, ref=ref, leap=getattr(um, 'last_leap', None), floats=dict(getattr(um, 'last_floats', {})))
                 else:
                     outs = um.step_missing(s2, z3.BoolVal(kind == 1))
                     info = dict(kind=kind)
@@ -240,7 +249,13 @@ def native_history(rp, m, hist, drift_val, stale_variant=False, prefix=(), cmd='
             if stale_variant and c == 2:
                 leap = 0 if leap == 3 else leap; age = 10 ** 12
             phc = max(-2 ** 40, min(mval(m, d['phc']) or 0, 2 ** 40))
-            toks.append('R,%s,%s,%s,%s,%d,%d,%d,%d,%d' % (f64_hex(0.0), f64_hex(0.0), f64_hex(disp), f64_hex(4096.0 if (c == 1 and age > 100 * NS) else 16.0), leap, age, phc, mval(m, d['as_s']), mval(m, d['as_n'])))
+            tok = 'R,%s,%s,%s,%s,%d,%d,%d,%d,%d' % (f64_hex(0.0), f64_hex(0.0), f64_hex(disp), f64_hex(4096.0 if (c == 1 and age > 100 * NS) else 16.0), leap, age, phc, mval(m, d['as_s']), mval(m, d['as_n']))
+            fl = d.get('floats') or {}
+            if cmd == 'history' and ('skew_ppm' in fl or 'last_offset' in fl):
+                sk = mval(m, fl['skew_ppm']) if 'skew_ppm' in fl else 0
+                lo_ = mval(m, fl['last_offset']) if 'last_offset' in fl else 0
+                tok += ',%s,%s' % (f64_hex(float(sk or 0)), f64_hex(float(lo_ or 0)))
+            toks.append(tok)
             expect.append(('R', c, ms, phc, b, mval(m, d['as_s']), mval(m, d['as_n'])))
         elif d['kind'] == 1:
             toks.append('G'); expect.append(('G',))
@@ -742,6 +757,31 @@ def run_check(prop, tier, seed, owner=None, only_clauses=None):
             first_report_composed(ck, prog, seed)
         except EngineError as e:
             ck.inconclusive.append('first report through the real classifier: %s' % e)
+        # the segment a daemon starts on is not its own: ShmWriter::new keeps a valid record a previous daemon left (C04), which may be a
+        # Synchronized one.  From the first non-synchronised poll outcome of the restarted daemon on, the record in the file says Unknown.
+        if not ck.violations:
+            rtok = 'R,%s,%s,%s,%s,0,%d,0,5000,0' % (f64_hex(0.0), f64_hex(0.0), f64_hex(0.001), f64_hex(16.0), 10 ** 6)
+            runs = []
+            rp3 = common.Replay('debug')
+            for second in (['N'], ['G'], ['N', 'N', 'G'], ['G', 'N']):
+                out = rp3.ask('historyseg 1000 ' + ' '.join([rtok, 'X'] + second))
+                runs.append({'second_life': second, 'native': out[:300]})
+                if not out.startswith('ok') or '|' not in out.split():
+                    ck.inconclusive.append('restart over a previous daemon\'s Synchronized record: native run: %s' % out[:200])
+                    break
+                toks = out.split()[1:]
+                recs = toks[toks.index('|') + 1:]
+                badi = [(i, r) for i, r in enumerate(recs) if r.count(':') == 6 and int(r.split(':')[6]) != 0]
+                if len(recs) != len(second) or badi:
+                    stats[1] += 1
+                    i, r = badi[0] if badi else (0, ' '.join(recs))
+                    ck.violation('status-before-first-measurement', 'a daemon published a Synchronized record and stopped; the daemon restarted on the same segment got %s as its %s poll outcome and the record clients read afterwards is %s (as_of:void_after:bound:drift:..:status) - status %s although this daemon has no measurement  [real ShmUpdater over the real ShmWriter on a real file]'
+                                 % ({'N': 'no answer (beyond grace)', 'G': 'no answer (within grace)'}[second[i]], ['first', 'second', 'third'][i], r, CLS.get(int(r.split(':')[6]), '?') if r.count(':') == 6 else '?'),
+                                 {'cmd': 'historyseg', 'native': out, 'steps': [rtok, 'X'] + second})
+                    break
+            rp3.close()
+            ck.cov['restart_over_synchronized_record'] = runs
+            ck.cov['evaluations'] = ck.cov.get('evaluations', 0) + len(runs)
         # what clients SEE: the records the daemon publishes before a first measurement are stored with status Unknown (above); the
         # client's evaluation of a record stored as Unknown is Unknown at every instant (any as_of / void_after, in particular the
         # placeholder as_of = 0, void_after = 1000 s evaluated at an uptime below 1000 s)
